@@ -358,7 +358,7 @@ mutual
           exact ⟨T, hT, p, _, hm, Or.inr (Or.inr (by simpa [elemViols] using hw))⟩
   theorem vElemsWith_err : ∀ (elems : List Elem) (vis : List String) (p : Path) (cur : Nat) (T : Elem) (d : Diag),
       T ∈ types → (∀ x ∈ elems, (p ++ [x.name], x) ∈ subElems ["types", T.name] T) →
-      (∀ w ∈ (memberMinima types cur elems).filterMap (offsetViol p), TypesBad types w) →
+      (∀ w ∈ (memberMinima types cur elems).filterMap (offsetViol types p), TypesBad types w) →
       vElemsWith types (vPublic types kf) vis p cur elems = .error d →
       d.cls = .cyclicReference ∨ d.cls = .fuelExhausted ∨ TypesBad types d.viol
     | [], vis, p, cur, T, d, _, _, _, h => by simp [vElemsWith] at h
@@ -378,7 +378,14 @@ mutual
           · simp [hc] at h
           · simp only [hc, Bool.false_eq_true, ↓reduceIte] at h
             cases ho : elemOffset e with
-            | none => simp [ho] at h
+            | none =>
+              simp only [ho] at h
+              obtain ⟨hov, rfl⟩ := (vAdvance_err _ _ _ _).mp h
+              refine Or.inr (Or.inr (hoff _ ?_))
+              simp only [memberMinima, hc, Bool.false_eq_true, ↓reduceIte, List.filterMap_cons]
+              have : offsetViol types p (e, cur) = some (DiagClass.offsetOverflow, p ++ [e.name]) :=
+                offsetViol_overflow types p e cur sz hsizeOf (by simp [ho]) (by simpa [ho] using hov)
+              simp [this, Diag.viol]
             | some ov =>
               simp only [ho] at h
               by_cases hlt : ov < cur
@@ -386,10 +393,17 @@ mutual
                 subst h
                 refine Or.inr (Or.inr (hoff _ ?_))
                 simp only [memberMinima, hc, Bool.false_eq_true, ↓reduceIte, List.filterMap_cons]
-                have : offsetViol p (e, cur) = some (DiagClass.offsetTooSmall, p ++ [e.name]) := by
+                have : offsetViol types p (e, cur) = some (DiagClass.offsetTooSmall, p ++ [e.name]) := by
                   simp [offsetViol, ho, hlt]
                 simp [this, Diag.viol]
-              · simp [hlt] at h
+              · simp only [hlt, ↓reduceIte] at h
+                obtain ⟨hov, rfl⟩ := (vAdvance_err _ _ _ _).mp h
+                refine Or.inr (Or.inr (hoff _ ?_))
+                simp only [memberMinima, hc, Bool.false_eq_true, ↓reduceIte, List.filterMap_cons]
+                have : offsetViol types p (e, cur) = some (DiagClass.offsetOverflow, p ++ [e.name]) :=
+                  offsetViol_overflow types p e cur sz hsizeOf
+                    (by intro x hx; rw [ho] at hx; cases hx; omega) (by simpa [ho] using hov)
+                simp [this, Diag.viol]
         · rw [vElementOffset_ok] at hcur'
           refine vElemsWith_err rest vis p cur' T d hT (fun x hx => hch x (by simp [hx])) ?_ h
           intro w hw
@@ -399,9 +413,9 @@ mutual
             subst hcur'
             simpa [memberMinima, hc] using hw
           · simp only [hc, Bool.false_eq_true, ↓reduceIte] at hcur'
-            obtain ⟨_, rfl⟩ := hcur'
+            obtain ⟨_, _, rfl⟩ := hcur'
             simp only [memberMinima, hc, Bool.false_eq_true, ↓reduceIte, hsizeOf, List.filterMap_cons]
-            cases offsetViol p (e, cur) with
+            cases offsetViol types p (e, cur) with
             | none => simpa using hw
             | some v => simp only [List.mem_cons]; exact Or.inr hw
 end
@@ -838,7 +852,7 @@ theorem vFields_err (hfp : FpAgree) (types : List Elem) (hnr : NoTopLevelRef typ
     ∀ (fields : List FieldDef) (cur : Nat) (d : Diag), vFields types lp cur fields = .error d →
       (∃ f ∈ fields, symbolicName f.name = false ∧ d.viol = (.invalidName, lp ++ [f.name])) ∨
       (∃ f ∈ fields, d.viol ∈ fieldViols types lp f) ∨
-      d.viol ∈ (fieldMinima types cur fields).filterMap (fieldOffsetViol lp) := by
+      d.viol ∈ (fieldMinima types cur fields).filterMap (fieldOffsetViol types lp) := by
   intro fields
   induction fields with
   | nil => intro cur d h; simp [vFields] at h
@@ -869,7 +883,7 @@ theorem vFields_err (hfp : FpAgree) (types : List Elem) (hnr : NoTopLevelRef typ
           have tailcase : ∀ cur', cur' = f.offset.getD cur + sz → vFields types lp cur' rest = .error d →
               ((∃ f' ∈ f :: rest, symbolicName f'.name = false ∧ d.viol = (DiagClass.invalidName, lp ++ [f'.name])) ∨
               (∃ f' ∈ f :: rest, d.viol ∈ fieldViols types lp f') ∨
-              d.viol ∈ (fieldMinima types cur (f :: rest)).filterMap (fieldOffsetViol lp)) := by
+              d.viol ∈ (fieldMinima types cur (f :: rest)).filterMap (fieldOffsetViol types lp)) := by
             intro cur' hcur' h'
             rcases ih cur' d h' with ⟨f', hf', hh⟩ | ⟨f', hf', hh⟩ | hh
             · exact Or.inl ⟨f', by simp [hf'], hh⟩
@@ -877,13 +891,24 @@ theorem vFields_err (hfp : FpAgree) (types : List Elem) (hnr : NoTopLevelRef typ
             · refine Or.inr (Or.inr ?_)
               simp only [fieldMinima, hc, Bool.false_eq_true, ↓reduceIte, g3, List.filterMap_cons]
               subst hcur'
-              cases fieldOffsetViol lp (f, cur) with
+              cases fieldOffsetViol types lp (f, cur) with
               | none => simpa using hh
               | some v => simp only [List.mem_cons]; exact Or.inr hh
+          have overflowcase : (∀ x, f.offset = some x → cur ≤ x) →
+              vAdvance (lp ++ [f.name]) (f.offset.getD cur) sz = .error d →
+              d.viol ∈ (fieldMinima types cur (f :: rest)).filterMap (fieldOffsetViol types lp) := by
+            intro hmin h'
+            obtain ⟨hov, rfl⟩ := (vAdvance_err _ _ _ _).mp h'
+            simp only [fieldMinima, hc, Bool.false_eq_true, ↓reduceIte, List.filterMap_cons]
+            have := fieldOffsetViol_overflow types lp f cur sz g3 hmin hov
+            simp [this, Diag.viol]
           cases ho : f.offset with
           | none =>
             simp only [ho] at h
-            exact tailcase _ (by simp [ho]) h
+            rcases (bind_err _ _ d).mp h with h | ⟨next, hnext, h⟩
+            · exact Or.inr (Or.inr (overflowcase (by simp [ho]) (by simpa [ho] using h)))
+            · obtain ⟨_, rfl⟩ := (vAdvance_ok _ _ _ _).mp hnext
+              exact tailcase _ (by simp [ho]) h
           | some o =>
             simp only [ho] at h
             by_cases hlt : o < cur
@@ -891,11 +916,15 @@ theorem vFields_err (hfp : FpAgree) (types : List Elem) (hnr : NoTopLevelRef typ
               subst h
               refine Or.inr (Or.inr ?_)
               simp only [fieldMinima, hc, Bool.false_eq_true, ↓reduceIte, List.filterMap_cons]
-              have : fieldOffsetViol lp (f, cur) = some (DiagClass.offsetTooSmall, lp ++ [f.name]) := by
+              have : fieldOffsetViol types lp (f, cur) = some (DiagClass.offsetTooSmall, lp ++ [f.name]) := by
                 simp [fieldOffsetViol, ho, hlt]
               simp [this, Diag.viol]
             · simp only [hlt, ↓reduceIte] at h
-              exact tailcase _ (by simp [ho]) h
+              rcases (bind_err _ _ d).mp h with h | ⟨next, hnext, h⟩
+              · exact Or.inr (Or.inr (overflowcase (by intro x hx; rw [ho] at hx; cases hx; omega)
+                  (by simpa [ho] using h)))
+              · obtain ⟨_, rfl⟩ := (vAdvance_ok _ _ _ _).mp hnext
+                exact tailcase _ (by simp [ho]) h
 
 
 theorem vDatas_err (types : List Elem) (hsz : SizesAgree types) (lp : Path) :
@@ -992,7 +1021,7 @@ theorem lv_field (types : List Elem) (l : LevelView) (w : Viol) (f : FieldDef) (
   have : w ∈ l.fields.flatMap (fieldViols types l.path) := List.mem_flatMap.mpr ⟨f, hf, h⟩
   unfold levelViols; simp only [List.mem_append]; simp only [this, true_or]
 theorem lv_offset (types : List Elem) (l : LevelView) (w : Viol)
-    (h : w ∈ (fieldMinima types 0 l.fields).filterMap (fieldOffsetViol l.path)) : w ∈ levelViols types l := by
+    (h : w ∈ (fieldMinima types 0 l.fields).filterMap (fieldOffsetViol types l.path)) : w ∈ levelViols types l := by
   unfold levelViols; simp only [List.mem_append]; simp only [h, true_or, or_true]
 theorem lv_value (types : List Elem) (l : LevelView) (w : Viol)
     (h : w ∈ levelValueViols types l.hdr l.path l.blockLength l.fields l.groups.length l.datas.length) :
